@@ -373,6 +373,40 @@ def fi_rules(rep, mod, T, fams):
 
 
 # ----------------------------------------------------------------------------------------------
+# emission part
+# ----------------------------------------------------------------------------------------------
+def sx_rules(rep, mod, T, fams, runs):
+    import c13_sx
+    f = mod.fn(FN)
+    w = where_fn(f)
+    times = {}
+    for fam, triple in fams.items():
+        pct = '%' + fam
+        t0 = time.time()
+        sx, rets, wp = c13_sx.run_family(mod, T, FN, triple, runs[fam].fi.ranges if fam in runs else {})
+        bad = [(s, rv) for s, rv in rets if not (isinstance(rv, c13_sx.Lin) and s.cons.entails_eq(rv, s.E))]
+        ok = bool(rets) and not bad
+        rep.inst('R-PCACC', FN, '%s: returned count == number of output callbacks on every path' % pct, ok, w,
+                 None if ok else ('on some path the routine returns %r after %r callback calls' % (bad[0][1], bad[0][0].E)
+                                  if bad else 'no path reaches a return'), fact={'paths': len(rets)})
+        for o in sx.obligs.values():
+            if o['kind'] == 'count-nonneg':
+                rep.inst('R-EMITCOUNT', o['fn'], '%s: emission count %s is never negative' % (pct, o['key']), o['ok'],
+                         o['where'], o['detail'])
+        for (fn_, key), r in sorted(sx.reads.items()):
+            rep.inst('R-EMITREAD', fn_, '%s: emission loop %s reads inside the local buffer' % (pct, key), r['ok'],
+                     r['where'], r['detail'])
+        res, npaths = c13_sx.float_layout(sx, rets, f, T, wp, fam)
+        if npaths == 0:
+            raise AnalysisBroken('%s: no return path emits the digit buffer (anchor changed)' % FN)
+        for key in sorted(res):
+            ok, detail = res[key]
+            rep.inst('R-FLAYOUT', FN, '%s: %s' % (pct, key), ok, w, detail)
+        times[pct] = round(time.time() - t0, 2)
+    rep.extra['c13_sx_seconds'] = times
+
+
+# ----------------------------------------------------------------------------------------------
 def run(rep, repo, tier):
     mod = unit(repo)
     rep.units.append(SRC)
@@ -386,3 +420,4 @@ def run(rep, repo, tier):
     if not fams:
         raise AnalysisBroken('no floating conversion reaches %s with constant mode arguments' % FN)
     runs = fi_rules(rep, mod, T, fams)
+    sx_rules(rep, mod, T, fams, runs)
